@@ -14,7 +14,7 @@ import io
 import json
 import random
 
-from simplan import cliworld, libexpect, procworld
+from simplan import cliworld, gen, libexpect, procworld
 from simplan.tape import Tape, rng_for
 
 PROP = "C19"
@@ -22,7 +22,13 @@ FAULT_KINDS = ["open-r", "read", "create", "write", "list", "remove", "stat", "e
 TZ_KNOB = [None, None, None, "UTC", "Asia/Tokyo", "America/New_York", "Pacific/Kiritimati"]
 
 
+SWEEP_EVENTS = 64  # event indices swept per base scenario (a run has 40-60 seam events)
+SWEEP_ORDS = 5  # fault ordinals tried per event (the longest applicable list has 4 errnos + sigint)
+
+
 def gen_spec(seed: int, idx: int, tier: str):
+    if idx % 4 == 3:
+        return gen_sweep_spec(seed, idx // 4, idx)
     rng = rng_for(PROP, seed, idx)
     inp = cliworld.make_input(rng, "p0", p_bad=0.3)
     if inp.get("text") and rng.random() < 0.06:
@@ -54,6 +60,24 @@ def gen_spec(seed: int, idx: int, tier: str):
         kinds = [k for k in FAULT_KINDS if rng.random() < 0.3]
     spec["faults"] = {"kinds": kinds, "p_proc": rng.choice([0.5, 1.0]), "p_second": 0.2, "horizon": rng.choice([12, 30, 48])}
     return spec, [inp], rng
+
+
+def gen_sweep_spec(seed: int, q: int, idx: int):
+    """Systematic fault placement: base scenario b (a valid project with reports of its own, all fault kinds
+    enabled) is run once per (event index, fault ordinal) pair with exactly that one fault injected."""
+    per = SWEEP_EVENTS * SWEEP_ORDS
+    b, r = divmod(q, per)
+    rng = rng_for(PROP, seed, f"sweep-base-{b}")
+    inp = gen.gen_project(rng, reports="always")
+    inp.update(name="p0", kind="ok")
+    spec = {"files": {}, "decoys": {}, "procs": [], "prop": PROP, "idx": idx, "mode": "single", "sweep": q}
+    cliworld.place_inputs(rng, [inp], spec)
+    ps = cliworld.make_proc(rng, inp, 0)
+    spec["procs"].append(ps)
+    spec.update(policy="seq", listing="perm", collide=False, name_salt=b % 4, clock_jumps=False, t0=procworld.T0, tz=None)
+    spec["faults"] = {"kinds": list(FAULT_KINDS), "p_proc": 1.0, "p_second": 0.0, "horizon": SWEEP_EVENTS}
+    spec["pin"] = {"proc": 0, "ev": 1 + r // SWEEP_ORDS, "ord": r % SWEEP_ORDS}
+    return spec, [inp], rng_for(PROP, seed, f"sweep-{q}")
 
 
 # ----------------------------------------------------------------------------- expectations
